@@ -1,7 +1,7 @@
 (* One entry point for the OCaml runner: op name and byte-string arguments
    in, (result bytes, tag text) out.  All structure is decoded here, in Coq. *)
 From Coq Require Import NArith ZArith List Bool String.
-From GJ Require Import Base.Bytes Base.Show Model.Int Model.StrEnc Model.StrDec Model.Compact Model.Iface Model.Path Model.KeyBitmap Spec.Json.
+From GJ Require Import Base.Bytes Base.Show Model.Int Model.StrEnc Model.StrDec Model.Compact Model.Iface Model.Path Model.KeyBitmap Spec.Json Gen.Resets Model.Mem.
 Import ListNotations.
 Open Scope N_scope.
 Open Scope string_scope.
@@ -77,4 +77,15 @@ Definition dispatch (op : list N) (args : list (list N)) : list N * list N :=
     (let names := split_on 10 (arg 0 args) in
      match bm_match (if Nat.leb (List.length names) 8 then 8 else 16)%nat names (arg 1 args) with
      | MStuck => str "stuck" | MNone => [78] | MField i => 70 :: show_N (N.of_nat i) end, [])
+  else if list_eqb op (str "c07.array") then
+    (* args: base, element size, array length, supplied elements (decimal) *)
+    (let ws := array_writes dec_array_fill_typed (dec_N (arg 0 args)) (dec_N (arg 1 args))
+                 (N.to_nat (dec_N (arg 2 args))) (N.to_nat (dec_N (arg 3 args))) in
+     let ws := filter (fun w => negb (N.eqb (snd w) 0)) ws in
+     match ws with
+     | [] => str "none"
+     | w :: _ =>
+         show_N (fold_left (fun a w => N.min a (fst w)) ws (fst w)) ++ [32] ++
+         show_N (fold_left (fun a w => N.max a (fst w + snd w)) ws 0)
+     end, [])
   else (str "no-model", []).
